@@ -3,7 +3,7 @@ From DV Require Export RightsSpec Authz.
 
 Inductive c01case :=
 | CMatrix (evs : list event) (probes : list (key * entity * Z))
-| CMut (defs : list (uid * list event)) (me : key) (ms : list ment)
+| CMut (defs : list (uid * list event)) (me : key) (now : Z) (ms : list ment)
 | CDel (defs : list (uid * list event)) (me : key) (now : Z) (ns : list dnode) (es : list dedge)
        (upd : list dnode)     (* source rows a reference deletion re-dates and re-signs (DeletionQuery.updated_nodes) *)
 | CRoomMut (defs : list (uid * list event)) (me : key) (rid : uid) (date : Z) (news : list event)
@@ -64,7 +64,7 @@ Fixpoint run_C01 (c : c01case) : list Z :=
   | CMatrix evs probes =>
       let '(r, oks) := build_from (empty_room 1%N) evs in
       map zb oks ++ flat_map (probe_model r) probes
-  | CMut defs me ms => [verdict_code (validate_all me (build_rooms defs) ms)]
+  | CMut defs me now ms => [verdict_code (validate_all me now (build_rooms defs) ms)]
   | CDel defs me now ns es upd => [verdict_code (validate_deletion me now (build_rooms defs) ns es upd)]
   | CRoomMut defs me rid date news =>
       match find (fun p => N.eqb (fst p) rid) defs with
@@ -79,7 +79,7 @@ Fixpoint run_C01 (c : c01case) : list Z :=
   end.
 
 (* ---- the property's own oracle, evaluated on what the IMPLEMENTATION answered ---- *)
-Definition head_entitled (defs : list (uid * list event)) (me : key) (h : mhead) : bool :=
+Definition head_entitled (defs : list (uid * list event)) (me : key) (now : Z) (h : mhead) : bool :=
   match h_kind h with
   | KAuthLike => false                       (* authorisation rows are never written outside a room mutation *)
   | KNormal =>
@@ -95,7 +95,11 @@ Definition head_entitled (defs : list (uid * list event)) (me : key) (h : mhead)
                                       else granted (evs_of defs orid) me (h_ent h) (h_date h) t
                                   | None => true end
                       | None => true end in
-      enter_ok && leave_ok
+      (* references created by someone else are removed only with the all-rows right (at `now`) *)
+      let dels_granted := match h_room h with
+                          | Some rid => forallb (fun a => N.eqb a me || granted (evs_of defs rid) me (h_ent h) now MutateAll) (h_edge_dels h)
+                          | None => true end in
+      enter_ok && leave_ok && dels_granted
   end.
 
 Definition del_entitled (defs : list (uid * list event)) (me : key) (now : Z)
@@ -126,9 +130,9 @@ Fixpoint spec_C01 (c : c01case) (obs : list Z) : bool :=
       let acc := map fst (filter snd (combine evs (map (fun z => Z.eqb z 1) (firstn (length evs) obs)))) in
       let per := chunks (length probes) 6 (drop (length evs) obs) in
       forallb (fun pq => zlist_eqb (firstn 4 (snd pq)) (probe_spec acc (fst pq))) (combine probes per)
-  | CMut defs me ms =>
+  | CMut defs me now ms =>
       match obs with
-      | [v] => if Z.eqb v 0 then forallb (head_entitled defs me) (flat_map written ms) else true
+      | [v] => if Z.eqb v 0 then forallb (head_entitled defs me now) (flat_map written ms) else true
       | _ => false
       end
   | CDel defs me now ns es upd =>
